@@ -687,6 +687,11 @@ pub fn handle_xreadgroup(storage: &Arc<StorageEngine>, db: usize, parts: &[RespF
         return Ok(RespFrame::null_array());
     }
     
+    // Nothing delivered for any stream: nil reply
+    if results.is_empty() {
+        return Ok(RespFrame::null_array());
+    }
+    
     Ok(RespFrame::Array(Some(results)))
 }
 
